@@ -29,7 +29,10 @@ def params(draw, tier):
                                allow_sub=True, n_int_max=6, n_int_min=1, pose=True, labels=True))
     if p["pose"].get("rot_mode") == "snapchord":
         p["pose"]["rot_mode"] = "zero"
+    # small physical units (e.g. metres for micrometre-sized cells) as well as pixel units
+    p["pose"]["logscale"] = draw(st.sampled_from([0.0, 0.0, 1.5, -3.0, -5.3, -6.0]))
     p["grid"] = draw(st.sampled_from([1, 2, 3, 5, 7, 10, 11, 12]))
+    p["grid_before"] = draw(st.sampled_from([None, 2, 4, 6]))
     p["radius"] = draw(st.sampled_from([0.5, 1.0, 1.5, 3.0, 6.0]))
     p["vseed"] = draw(st.integers(0, 2 ** 32 - 1))
     p["pmode"] = draw(st.sampled_from(["random", "random", "uniform", "zero"]))
@@ -156,6 +159,10 @@ def check_case(p, ctx):
                                  detail={"row": key[0], "col": key[1]})
     # ---- principal stresses at the grid centres
     assign(frame, R, p1, t1)
+    if p.get("grid_before"):
+        # an earlier evaluation with another grid and radius must not leave anything behind
+        call(frame.calculate_stress_tensor, p["grid_before"], radius * 1.5)
+        ctx.count("recomputed-after-another-grid")
     call(frame.calculate_stress_tensor, grid, radius)
     ps = frame.principal_stress
     xc, yc = frame.stress_tensor[1][0], frame.stress_tensor[1][1]
@@ -193,7 +200,7 @@ def check_case(p, ctx):
 
 
 def run(ctx):
-    drive(ctx, params(ctx.tier), check_case, ctx.budget(quick=50, thorough=300), label="tissue")
+    drive(ctx, params(ctx.tier), check_case, ctx.budget(quick=70, thorough=300), label="tissue")
 
 
 CASES = {"tissue": check_case}
